@@ -23,9 +23,9 @@ case "${1:-}" in
 esac
 need_build && { mkdir -p bin; build; }
 prop=$1; tier=${2:-${VERIF_TIER:-quick}}
-bin/archecheck -property "$prop" -tier "$tier"
-rc=$?
-if [ "$tier" = thorough ] && [ -x tools/sensitivity.sh ]; then
-  tools/sensitivity.sh "$prop" || true
+if [ "$tier" = thorough ]; then
+  # sensitivity suite first (non-fatal; its results are embedded in the evidence written by the check below)
+  python3 tools/sensitivity.py "$prop" --jobs 4 || true
 fi
-exit $rc
+bin/archecheck -property "$prop" -tier "$tier"
+exit $?
